@@ -4,7 +4,7 @@
 #   (3) demo PASSES without the patch. Writes <seed-dir>/verify.log and prints a one-line verdict.
 set -u
 SEED=$(readlink -f "$1")
-WT=/tmp/seedver
+WT=${SEEDVER_WT:-/tmp/seedver}
 LOG="$SEED/verify.log"
 export CARGO_NET_OFFLINE=true CARGO_TARGET_DIR=$WT/target
 if [ ! -d $WT ]; then
